@@ -240,9 +240,32 @@ def _interrupt_points(item):
     return ('ok' if not bad else 'bad', bad[:5], total, len(ks))
 
 
+def header_fill_order(rule):
+    """the keys ElectionRecord._fill assigns, in order, and whether `filled` is set only afterwards"""
+    from droop.profile import ElectionProfile
+    from droop.election import Election
+    from droop import record as rec
+    E = Election(ElectionProfile(data='2 1\n2 1 0\n1 2 0\n0\n"a" "b" "t"\n'), dict(rule=rule))
+    seen = []
+    class Spy(rec.ElectionRecord):
+        def __setitem__(self, k, v):
+            seen.append((k, self.filled))
+            dict.__setitem__(self, k, v)
+    E.erecord.__class__ = Spy
+    E.erecord._fill()
+    keys = [k for k, f in seen if k not in ('omega', 'profile_source', 'profile_comment')]
+    return keys, all(not f for k, f in seen) and E.erecord.filled
+
+
 @prop('C19')
 def C19(run):
     broken = lean_gate(run, THEOREMS['C19'])
+    model_keys = common.run_driver(['HEADERKEYS'])[0].split(',')
+    for rule in ('wigm', 'meek', 'qpq', 'mpls'):
+        keys, last = header_fill_order(rule)
+        if keys != model_keys or not last:
+            broken.append('correspondence HEADERKEYS: _fill assigns %s (filled set last: %s), the model of Props/C19.lean has %s' % (keys, last, model_keys))
+            break
     rng = rng_for(run)
     n = budget(run, 48, 1500)
     per = budget(run, 260, 400)
